@@ -9,6 +9,20 @@ PROPS = [json.loads(l) for l in open(os.path.join(HERE, "properties.jsonl"))]
 TRUST = "trusted base: z3/cvc5, the Python-semantics model of pyvc (differential-tested against CPython on every run), the numpy/attrs axioms in pyvc/models.py, float arithmetic as real arithmetic (A-FP); see evidence.assumptions"
 
 CHECKS = {
+    "C09": dict(
+        category="proof",
+        text="Frame obligations by provenance analysis over the call graph of dump_one / dump_many / write_input (every function reachable, incl. callbacks and dynamic dispatch over all format modules): every mutating statement targets an object allocated in that activation, never one reachable from the arguments or from module state (key-sensitive tracking of containers and of elements stored into them; function summaries by fixpoint). The six prepare_dump functions return their argument or the announced conversion of prepare_* with allow_changes passed on, and raise only PrepareDumpError; dump_one returns the written object (C08); the equivalences of the conversions are C14. Deep snapshots over the driver pool are a bounded cross-check.",
+        design_ref="DESIGN.md 6/C09",
+        note=TRUST + "; numpy/builtin aliasing axioms; flow-insensitive within a function; C-level code of numpy/scipy does not write into inputs",
+        technique="contract-based deductive verification: modifies/frame obligations discharged by a provenance analysis of the real AST over the call graph + bounded deep snapshots",
+    ),
+    "C16": dict(
+        category="proof",
+        text="For sequential histories: no function of the package writes a module-level name or mutates an object of global provenance (tables, registries, conventions), none has a mutable default argument, closure or class-level state, and no function reachable from the API reads mutable process state; hence every call is a function of its arguments and file contents (lemma), independent of order and repetition. A pool of API calls run alone in fresh interpreters vs. in several orders in one interpreter is a bounded cross-check. The thread-schedule half of the property is NOT decided by this technique and is listed under not_covered.",
+        design_ref="DESIGN.md 6/C16",
+        note=TRUST + "; thread interleavings not covered (family silent on concurrency); standard library / numpy keep no result-affecting state",
+        technique="contract-based deductive verification: frame obligations (no write to module state) by provenance analysis over the whole package + purity scan + bounded history permutations",
+    ),
     "C10": dict(
         category="proof",
         text="Both conversion functions are verified against contracts taken from the statement for all label lists and all bases (loop invariants, no bound) by symbolic execution of the real AST + z3; round-trip/reverse/composition are lemmas over the contracts; all convention tables and all ordered table pairs are decided by exhaustive evaluation.",
